@@ -36,7 +36,8 @@ def toBytes (nb : Nat) (v : BitVec (8 * nb)) : List Nat := packBytes nb ((List.r
 /-- plane `b` of a row as a bit vector (a missing plane reads 0) -/
 def plane (nb : Nat) (r : SRow) (b : Nat) : BitVec (8 * nb) := ofBytes nb (r.getD b [])
 
-def xorBytes (a b : List Nat) : List Nat := List.zipWith (· ^^^ ·) a b
+/-- byte-wise XOR of two planes of `nb` bytes -/
+def xorBytes (nb : Nat) (a b : List Nat) : List Nat := (List.range nb).map fun j => a.getD j 0 ^^^ b.getD j 0
 
 /-- how one arity uses the three planes of an `s` row -/
 structure Codec (α : Type) where
@@ -64,7 +65,7 @@ def codec4 (nb : Nat) : Codec (P2 (BitVec (8 * nb))) where
 def codec8 (nb : Nat) : Codec (P3 (BitVec (8 * nb))) where
   dec r := ⟨plane nb r 0, plane nb r 1, plane nb r 2⟩
   enc v _ := [toBytes nb v.p0, toBytes nb v.p1, toBytes nb v.p2]
-  merge old new := [new.getD 0 [], old.getD 0 [], xorBytes (new.getD 0 []) (old.getD 0 [])]
+  merge old new := [new.getD 0 [], old.getD 0 [], xorBytes nb (new.getD 0 []) (old.getD 0 [])]
 
 /-! ### the four steps of logic_sim.py at byte level (signal-level memory as in Model/Cycle.lean) -/
 
